@@ -1,6 +1,7 @@
-(* Proofs/HashMemoRunEx.v — the hypothesis of HashMemoRun.run_HInv is what
-   separates the counterexamples of HashMemoEx.v from the programs the theorem
-   covers; non-vacuity of the theorem. *)
+(* Proofs/HashMemoRunEx.v — non-vacuity of HashMemoRun.run_HInv on the repaired
+   model: the programs of the former counterexample (HashMemoEx.v: write the
+   target, call build_file, write the target again) are now covered; the
+   invariant holds when their user code returns, with a non-empty memo. *)
 From Coq Require Import List String Ascii NArith ZArith Bool Arith.
 From FB.Base Require Import PyVal Fs.
 From FB.Gen Require Import JsonUtilGen.
@@ -12,58 +13,41 @@ Import HashMemoEx.
 Local Open Scope string_scope.
 Local Open Scope list_scope.
 
-(* the function of the counterexample writes, calls build_file, writes again *)
-Theorem fp2_not_wsafe : forall p sa skw, ~ wsafe S0 (fp2 p sa skw).
+(* user code of the second build of the first history (root2: p is built by fp2,
+   which writes "X", asks for q — whose old record mentions p — and writes "B"),
+   from the world m_build starts it in: the cache file of the first build is
+   read, the directory of the cache file is made, the root function is called *)
+Definition w_done2 : world := fst (run root2 None [] w_user).
+
+Theorem root2_HInv :
+  HInv w_done2 /\ HashOk w_done2 /\
+  hash_get (w_hash w_done2) P = Some (hash_of "B", true) /\
+  (exists f, lookup (w_fs w_done2) P = Some (NFile f) /\ f_bytes f = "B").
 Proof.
-  intros p sa skw H. unfold fp2 in H.
-  inversion H as [| | | st c k Hst Hk | |]; subst. cbn [after_write] in Hk.
-  inversion Hk as [| | | | st s p0 c0 f a kw fn k0 Hfn Hk0 |]; subst.
-  specialize (Hk0 (inl PNone)). cbn [after_call] in Hk0.
-  inversion Hk0 as [| | | st c k Hst' Hk' | |]; subst. apply Hst'. reflexivity.
+  assert (H : HInv w_done2).
+  { destruct (lookup (w_fs w1) CF) as [[f|]|] eqn:El; try (vm_compute in El; discriminate El).
+    destruct (cache_of_json (f_json f)) as [old| |] eqn:Ej.
+    2,3: (exfalso; revert Ej; vm_compute in El; inversion El; subst f; vm_compute; discriminate).
+    destruct (make_dirs (dirname CF) (start_world w1 CF old "n" V)) as [wd [ccd|e]] eqn:Em.
+    2:{ exfalso. revert Em. revert Ej. vm_compute in El. inversion El; subst f.
+        vm_compute. intro X. inversion X; subst old. vm_compute. discriminate. }
+    destruct (run root2 None [] (set_log (LInvoke "<root>" None PNone PNone :: w_log wd) wd)) as [wz res] eqn:Er.
+    pose proof (build_from_cache_file_HInv CF f "n" V w1 root2 old wd ccd wz res Ej Em Er) as X.
+    assert (Ew : w_done2 = wz).
+    { unfold w_done2, w_user, old2. rewrite El, Ej, Em. cbn [fst]. rewrite Er. reflexivity. }
+    rewrite Ew. exact X. }
+  split; [exact H|]. split; [exact (proj1 H)|].
+  split; [vm_compute; reflexivity|]. vm_compute. eexists. split; reflexivity.
 Qed.
 
-Theorem root2_not_wsafe : forall st, ~ wsafe st root2.
-Proof.
-  intros st H. unfold root2 in H.
-  inversion H as [| | | | st0 s p0 c0 f a kw fn k0 Hfn Hk0 |]; subst.
-  exact (fp2_not_wsafe P E K (Hfn P E K)).
-Qed.
-
-Theorem fp3_not_wsafe : forall p sa skw, ~ wsafe S0 (fp3 p sa skw).
-Proof.
-  intros p sa skw H. unfold fp3 in H.
-  inversion H as [| | | st c k Hst Hk | |]; subst. cbn [after_write] in Hk.
-  inversion Hk as [| | | | st s p0 c0 f a kw fn k0 Hfn Hk0 |]; subst.
-  specialize (Hk0 (inl PNone)). cbn [after_call] in Hk0.
-  inversion Hk0 as [| | st s q k Hq | | |]; subst.
-  specialize (Hq (inl (PBool true))). cbn [is_true_o] in Hq.
-  inversion Hq as [| | | st c k Hst' Hk' | |]; subst. apply Hst'. reflexivity.
-Qed.
-
-(* the first build of the counterexample is inside the class: fq calls build_file
-   first and writes its target afterwards; fp writes once *)
-Theorem root1_wsafe : wsafe SN root1.
-Proof.
-  unfold root1. apply WS_BuildFile; [|intro r; apply WS_Ret].
-  intros p' sa skw. unfold fq. apply WS_BuildFile.
-  - intros p'' sa' skw'. apply WS_Write; [discriminate | apply WS_Ret].
-  - intro r. cbn [after_call]. apply WS_Write; [discriminate | apply WS_Ret].
-Qed.
-
-(* instance: user code of the first build, from the world m_build starts it in *)
-Definition w_start : world := start_world init_world CF (empty_cache "n" V) "n" V.
-Definition w_dirs : world := fst (make_dirs (dirname CF) w_start).
-Definition w_user : world := set_log (LInvoke "<root>" None PNone PNone :: w_log w_dirs) w_dirs.
-Definition w_done : world := fst (run root1 None [] w_user).
-
-Theorem root1_HInv : HInv w_done /\ HashOk w_done /\ w_hash w_done <> [].
-Proof.
-  assert (H : HInv w_done).
-  { destruct (make_dirs (dirname CF) w_start) as [w1 [ccd|e]] eqn:Em.
-    2:{ vm_compute in Em. discriminate Em. }
-    destruct (run root1 None [] (set_log (LInvoke "<root>" None PNone PNone :: w_log w1) w1)) as [w2 res] eqn:Er.
-    destruct (build_user_code_HInv CF (empty_cache "n" V) "n" V init_world root1 w1 ccd w2 res root1_wsafe Em Er)
-      as [_ H2].
-    unfold w_done, w_user, w_dirs. fold w_start. rewrite Em. cbn [fst]. rewrite Er. exact H2. }
-  split; [exact H|]. split; [exact (proj1 H)|]. vm_compute. discriminate.
-Qed.
+(* the general consequence, instantiated: whatever program calls build_file for p
+   with fp2 as its function in an HInv world, the record of the rebuilt p carries
+   the hash of its final contents *)
+Theorem fp2_records_final_hash : forall w wc w' v o,
+  HInv w -> old_keys_ok (w_old w) ->
+  BuildFileLaws.bf_setup P HASH "fp2" E K w = (wc, inl None) ->
+  BuildFileLaws.bf_rebuild P HASH "fp2" E K (fun p' a k w0 => run (fp2 p' a k) (Some p') [] w0) wc
+    = (w', (inl v, Some o)) ->
+  exists fl subs, lookup (w_fs w') P = Some (NFile fl) /\
+                  o = OBuildFile P HASH "fp2" E K subs v (hash_of (f_bytes fl)) false false.
+Proof. intros. eapply every_rebuilt_output_hash; eauto. Qed.
